@@ -6,6 +6,7 @@ Wire form (implrun hdr / modelrun_hdr):  g T | s T =<hex>|_ | a N =<hex>|_ | u T
 """
 
 NAMES = [("Foo", "fOO"), ("X-Bar", "x-bAR"), ("Vary", "VARY")]          # 3 names x 2 spellings
+WILDCARDS = ["X-*", "x-*", "fO*", "V*", "*"]                            # wildcard unsets: prefix in both cases, everything
 KEYS = ["a", "bc", "k-1"]                                               # 3 sub-field keys
 VALUES = [b"x", b"p q,r", b"", None]                                    # token, spaces+separator, empty, not set
 
@@ -37,7 +38,7 @@ def all_reads(names=None, keys=None):
     return out
 
 
-def small_mutators(names=None, keys=None, values=None):
+def small_mutators(names=None, keys=None, values=None, wild=True):
     names = names or NAMES
     keys = keys or KEYS
     values = VALUES if values is None else values
@@ -52,6 +53,8 @@ def small_mutators(names=None, keys=None, values=None):
             ops.append(("u", n))
             for k in keys:
                 ops.append(("u", "%s:%s" % (n, k)))
+    if wild:
+        ops += [("u", w) for w in WILDCARDS]
     return ops
 
 
@@ -143,6 +146,8 @@ def random_history(rng, n=None, safe=False):
     for _ in range(n):
         r = rng.random()
         name = rng.choice(rng.choice(NAMES)) if safe else random_name(rng)
+        if safe and rng.random() < 0.06:
+            name = rng.choice(WILDCARDS + ["X-b*", "x-BAR*", "Foo*", "vAr*", "Fooo*"])
         if name.endswith("*"):
             ops.append(("u", name))
             continue
@@ -251,6 +256,9 @@ def oracle_history(rng, n=None, tricky=False):
     ops = []
     for _ in range(n):
         r = rng.random()
+        if rng.random() < 0.07:
+            ops.append(("u", rng.choice(WILDCARDS + ["X-b*", "x-BAR*", "Foo*", "vAr*", "Fooo*", "X-Bar-*"])))
+            continue
         name = rng.choice(rng.choice(NAMES))
         key = rng.choice(KEYS)
         if rng.random() < 0.3:
@@ -316,6 +324,24 @@ def oracle(ops, reads, replies):
             break
         if st != "ok":
             out.append(("%s %s -> %s (expected ok)" % (o[0], o[1], st), None))
+            prev = cur
+            continue
+        if o[0] == "u" and o[1].endswith("*"):
+            # wildcard unset: every header whose name starts with the prefix (without case) reads as not set, as a whole
+            # and in every sub-field; every other read is unchanged; the spellings of a name agree
+            pre = o[1][:-1].lower()
+            for g_ in [x for x in taint if x.startswith(pre)]:
+                taint.pop(g_, None)
+            for a, b in NAMES:
+                if cur.get(a) != cur.get(b):
+                    out.append(("spellings %s / %s read %s / %s after u %s" % (a, b, cur.get(a), cur.get(b), o[1]), None))
+            for t, rep in cur.items():
+                th = t.partition(":")[0]
+                if th.lower().startswith(pre):
+                    if rep != "N":
+                        out.append(("after wildcard unset %s: %s reads %s, expected N (not set)" % (o[1], t, rep), None))
+                elif rep != prev[t]:
+                    out.append(("wildcard unset %s changed the read of %s: %s -> %s" % (o[1], t, prev[t], rep), None))
             prev = cur
             continue
         hname, _, key = o[1].partition(":")
